@@ -5,4 +5,4 @@ From Verif Require Jit.JitModel.
 Extraction Blacklist List String Int.
 Extraction "oomtxn.ml" OracleModel.vec_run OracleModel.vec_empty OracleModel.hash_run OracleModel.hash_empty OracleModel.hash_get
   OracleModel.hash_keys OracleModel.nbuckets OracleModel.pool_run OracleModel.pool_empty OracleModel.holder_run OracleModel.holder_empty
-  OracleModel.vsize OracleModel.vec_step OracleModel.hash_step OracleModel.pool_add OracleModel.holder_step OracleModel.all_ok OracleModel.holder2_step OracleModel.holder2_init OracleModel.holder2_run OracleModel.builder_step OracleModel.bld_init OracleModel.vm_step OracleModel.vms_init OracleModel.ra_step OracleModel.ras_init OracleModel.ra_rewrite OracleModel.str_step OracleModel.str_empty OracleModel.ra_check JitJointModel.jit_alloc JitJointModel.jit_release JitJointModel.jit_shrink JitModel.release JitModel.shrink JitModel.init_state JitModel.fixed.
+  OracleModel.vsize OracleModel.vec_step OracleModel.hash_step OracleModel.pool_add OracleModel.holder_step OracleModel.all_ok OracleModel.holder2_step OracleModel.holder2_init OracleModel.holder2_run OracleModel.builder_step OracleModel.bld_init OracleModel.vm_step OracleModel.vms_init OracleModel.ra_step OracleModel.ras_init OracleModel.ra_rewrite OracleModel.str_step OracleModel.str_empty OracleModel.arena_step OracleModel.arena_init OracleModel.ra_check JitJointModel.jit_alloc JitJointModel.jit_release JitJointModel.jit_shrink JitJointModel.jit_step JitJointModel.jst_init JitJointModel.valid_ptrb JitModel.release JitModel.shrink JitModel.init_state JitModel.fixed.
